@@ -90,8 +90,10 @@ class Ctx:
 
 
 class Slicer:
-    def __init__(self, src, cflags):
+    def __init__(self, src, cflags, ext_prefix=None, enums=None):
         self.src, self.cflags = src, cflags
+        self.ext_prefix = ext_prefix    # calls of undefined functions with this prefix: value = field rc, n += 1
+        self.enums = enums or {}        # enum constant name -> value (probed by the caller)
         self.cache = {}
         self.uid = 0
         self.depth = 0
@@ -177,6 +179,11 @@ class Slicer:
             t = L.ctype(n)
             if t is not None and t[1] > 1 and t not in self.types:
                 self.types.append(t)
+        if k == "DeclRefExpr" and n["referencedDecl"].get("kind") == "EnumConstantDecl":
+            nm = n["referencedDecl"]["name"]
+            if nm not in self.enums:
+                raise L.LeafError("value of enum constant %s is not known" % nm)
+            return lit(self.enums[nm])
         if k == "DeclRefExpr":
             nm = n["referencedDecl"]["name"]
             if nm in ctx.refs:
@@ -238,6 +245,11 @@ class Slicer:
             raise L.LeafError("indirect call")
         name = callee["referencedDecl"]["name"]
         f = self.fn(name)
+        if f is None and self.ext_prefix and name.startswith(self.ext_prefix):
+            # a call into the system library: its arguments are not looked at, its value is the input `rc`
+            pre = [assign(field("n"), {"kind": "BinaryOperator", "opcode": "+", "type": {"qualType": "int"},
+                                       "inner": [rfield("n"), lit(1)]})]
+            return pre + self.ex(self.replace(e, path, rfield("rc")), ctx, k)
         if f is None:
             raise L.LeafError("call of %s, which is not defined in this file" % name)
         if self.depth > 6:
@@ -315,6 +327,10 @@ class Slicer:
                     c2 = c.sub()
                     c2.refs.add(d["name"])
                     return one(i + 1, c2)
+                if self.ext_prefix and L.ctype(d) is None and init is None:
+                    # an opaque object handed to the system library by address (e.g. pthread_mutexattr_t): the calls'
+                    # arguments are not looked at; any other use of it is an unknown variable for the translator
+                    return one(i + 1, c)
                 self.note_type(d, "local " + d["name"])
                 nm = self.fresh(d["name"])
                 ty = d["type"].get("desugaredQualType") or d["type"]["qualType"]
@@ -464,6 +480,81 @@ class Slicer:
                           {"kind": "CompoundStmt", "inner": stmts}]}
 
 
+def enum_refs(n, acc):
+    if n.get("kind") == "DeclRefExpr" and n.get("referencedDecl", {}).get("kind") == "EnumConstantDecl":
+        acc.add(n["referencedDecl"]["name"])
+    for c in n.get("inner", []):
+        if isinstance(c, dict):
+            enum_refs(c, acc)
+
+
+def probe_constants(names, includes, cflags, workdir, tag):
+    """values of integer constant expressions as gcc folds them (same reader as lib/atomic_tie.py)"""
+    import atomic_tie as AT
+    src = "".join('#include %s\n' % i for i in includes)
+    src += "".join("long long PRC_%d(void) { return (long long)(%s); }\n" % (i, nm) for i, nm in enumerate(names))
+    funs = AT.gimple(src, [f for f in cflags if not f.startswith("-std")] + ["-std=gnu11", "-O1", "-w"], workdir, tag)
+    out = {}
+    for i, nm in enumerate(names):
+        b = AT.Body(funs.get("PRC_%d" % i, ""))
+        if len(b.rets) == 1 and b.rets[0] is not None and re.match(r"-?\d+$", b.rets[0].strip()):
+            out[nm] = int(b.rets[0])
+    return out
+
+
+MUTEX_FNS = [("muggle_mutex_init", "gen_mutex_init"), ("muggle_mutex_destroy", "gen_mutex_destroy"),
+             ("muggle_mutex_lock", "gen_mutex_lock"), ("muggle_mutex_trylock", "gen_mutex_trylock"),
+             ("muggle_mutex_unlock", "gen_mutex_unlock")]
+MUTEX_CONSTS = ["MUGGLE_OK", "MUGGLE_ERR_SYS_CALL", "MUGGLE_ERR_ACQ_LOCK"]
+
+
+def gen_mutex(repo, cflags, workdir):
+    """result mapping of mutex.c (pthread branch): each function as a function of the value `rc` every pthread_*
+    call returns:  gen_<f> (f_n f_rc : Z) = (result, number of pthread_* calls made)"""
+    import os
+    src = os.path.join(repo, "muggle/c/sync/mutex.c")
+    out = []
+    try:
+        consts = probe_constants(MUTEX_CONSTS, ['"muggle/c/base/err.h"'], cflags, workdir, "errconst")
+    except Exception as e:
+        consts = {}
+        out.append("(* constants could not be probed: %s *)" % str(e).replace("*)", "* )")[:300])
+    for nm in MUTEX_CONSTS:
+        out.append("Definition code_%s : Z := %s." % (nm, consts.get(nm, "(-999999) (* unknown *)")))
+    out.append("")
+    for name, g in MUTEX_FNS:
+        try:
+            sl0 = Slicer(src, cflags)
+            f = sl0.fn(name)
+            if f is None:
+                raise L.LeafError("function %s with a body not found" % name)
+            names = set()
+            enum_refs(f, names)
+            extra = sorted(n for n in names if n not in consts)
+            enums = dict(consts)
+            if extra:
+                enums.update(probe_constants(extra, ['"muggle/c/sync/mutex.h"', '"muggle/c/base/err.h"', "<errno.h>"],
+                                             cflags, workdir, "enum_" + name))
+            sl = Slicer(src, cflags, ext_prefix="pthread_", enums=enums)
+            fn = sl.slice(name)
+            t = L.Tr(fn, None, cflags)
+            body = [c for c in fn["inner"] if c.get("kind") == "CompoundStmt"][0]
+            t.all_written = ["f_n"]
+            t.cnt = 0
+            code = t.stmts([body], {}, "Z")
+            bad = set(t.written) - {"f_n"}
+            used = set(k for k, _ in t.fields) - {"f_n", "f_rc"}
+            if bad or used:
+                raise L.LeafError("unexpected state %s" % sorted(bad | used))
+            code = re.sub(r"@FIELD:(\w+)@", r"\1", code)
+            out.append("Definition %s (f_n : Z) (f_rc : Z) :=\n  %s.\n" % (g, code))
+        except L.LeafError as e:
+            out.append("(* translator error for %s: %s *)\n" % (name, e))
+        except Exception as e:
+            out.append("(* translator failure for %s: %r *)\n" % (name, e))
+    return "\n".join(out)
+
+
 FIELDS = ["f_cas_des", "f_cas_exp", "f_cas_n", "f_cur", "f_stuck"]
 
 
@@ -507,4 +598,6 @@ if __name__ == "__main__":
     repo = sys.argv[1] if len(sys.argv) > 1 else "/repo"
     import os
     here = os.path.dirname(os.path.dirname(os.path.dirname(os.path.abspath(__file__))))
-    print(gen_all(repo, ["-std=gnu11", "-I" + repo, "-I" + os.path.join(here, "build", "gen"), "-DNDEBUG"]))
+    fl = ["-std=gnu11", "-I" + repo, "-I" + os.path.join(here, "build", "gen"), "-DNDEBUG"]
+    print(gen_all(repo, fl))
+    print(gen_mutex(repo, fl, "/tmp/vb-c04-scratch/mx"))
